@@ -3,11 +3,16 @@ namespace Yaclib.CoSharedMutex
 
 set_option maxHeartbeats 4000000 in
 theorem inv_step_8 {cfg s l s'} (hi : Inv cfg s) (hs : Step s l s') (hg : grpOf l = 8) : Inv cfg s' := by
-  cases hi
   cases hs with
-  | tailUnlock c hs => sm_dbg [List.count_le_length, List.length_eq_zero_iff, length_pos_of_ne_nil]
-  | wuCasOk c h hW hR => sm_dbg [List.count_le_length, List.length_eq_zero_iff, length_pos_of_ne_nil]
-  | wuCasFail c h hne => sm_dbg [List.count_le_length, List.length_eq_zero_iff, length_pos_of_ne_nil]
+  | tailUnlock c hs =>
+      cases hi
+      sm_auto [List.count_le_length]
+  | wuCasOk c h hW hR =>
+      cases hi
+      sm_auto [List.count_le_length]
+  | wuCasFail c h hne =>
+      cases hi
+      sm_auto [List.count_le_length]
   | _ => simp [grpOf] at hg
 
 end Yaclib.CoSharedMutex
